@@ -5,6 +5,7 @@ Called from props/C20.py (`H` = that module: hs / unhs / Batch helpers live ther
 import asyncio
 import contextlib
 import itertools
+import struct
 import types
 import unicodedata
 from unittest import mock
@@ -88,6 +89,34 @@ class RealExt:
         except (self.ValidationError, TypeError):
             return "err"
 
+    @staticmethod
+    def show_sock(rec):
+        """the socket level effects of connect(): every setsockopt in order, the bound CAN ids (`none`: no socket was programmed)"""
+        if "so" not in rec and "bind" not in rec and "so_err" not in rec:
+            return "none"
+        items = []
+        for a in rec.get("so", []):
+            v = a[2] if len(a) > 2 else None
+            if isinstance(v, (bytes, bytearray)):
+                sv = bytes(v).hex() or "-"
+            elif isinstance(v, int):
+                sv = f"i{int(v)}"
+            else:
+                sv = "?" + type(v).__name__
+            items.append(f"{a[0]}:{a[1]}:{sv}")
+        b = rec.get("bind")
+        if "so_err" in rec:
+            bs = "range"
+        elif b is None:
+            bs = "unbound"
+        elif len(b) == 1:
+            bs = "if"
+        elif len(b) == 3 and all(isinstance(x, int) for x in b[1:]):
+            bs = f"{b[1]}:{b[2]}"
+        else:
+            bs = "?" + repr(b[1:])
+        return f"so={','.join(items) if items else '-'} bind={bs}"
+
     # ---- connect() of the real transport class with the network primitives replaced -------------------------------
     def connect(self, scheme, raw):
         """canonical plan string or `err:<kind>`; anything unexpected is returned as `exc:...`"""
@@ -129,9 +158,10 @@ class RealExt:
             def bind(self, addr):
                 rec["bind"] = addr
                 rec["host"] = addr[0]
+                rec["bind_after_err"] = "so_err" in rec
 
             def setsockopt(self, *a):
-                pass
+                rec.setdefault("so", []).append(a)
 
             def setblocking(self, f):
                 pass
@@ -148,10 +178,22 @@ class RealExt:
             patches.append(mock.patch.object(mod.HSFZConnection, "connect", staticmethod(hsfz_connect)))
         if hasattr(mod, "s") and getattr(mod, "s") is real_socket:
             patches.append(mock.patch.object(mod, "s", fake_s))
+        def guarded(orig, name):
+            # struct.pack of out-of-range numbers happens after the point the plan describes: the plan goes on, the socket
+            # level record (`last_sock`) notes that the real connect() stops here
+            def w(*a, **k):
+                if "so_err" in rec:
+                    return
+                try:
+                    orig(*a, **k)
+                except struct.error:
+                    rec["so_err"] = name
+            return staticmethod(w)
+
         for name in ("_setsockopts", "_setsockllopts", "_setsockfcopts"):
-            # struct.pack of out-of-range numbers happens after the point the plan describes
             if hasattr(cls, name):
-                patches.append(mock.patch.object(cls, name, staticmethod(lambda *a, **k: None)))
+                patches.append(mock.patch.object(cls, name, guarded(getattr(cls, name), name)))
+        self.last_sock = "noplan"
         try:
             target = self.real.TargetURI(raw)
         except ValueError:
@@ -190,12 +232,85 @@ class RealExt:
             exp = (cls._calc_flags(cfg.dst_addr, cfg.is_extended), cls._calc_flags(cfg.src_addr, cfg.is_extended))
             if tuple(rec["bind"][1:]) != exp:
                 return f"exc:bind-used-{rec['bind'][1:]!r}-config-has-{exp!r}"
+        self.last_sock = self.show_sock(rec)
         host = rec.get("host")
         port = rec.get("port", getattr(tr, "port", None) if scheme in ("doip", "hsfz") else None)
         path = rec.get("path")
         H = self.H
         return (f"host={'none' if host is None else H.hs(H.canon_host(host))} port={'none' if port is None else port} "
                 f"path={'none' if path is None else H.hs(path)} {self.show_cfg(cfg) if cfg is not None else 'nocfg'}")
+
+
+# linux/can/isotp.h, linux/can/raw.h (trusted base of the readable rendering; the comparison itself is on the raw bytes)
+SOCK_NAMES = {(106, 1): ("CAN_ISOTP_OPTS", "<IIBBBB", ("flags", "frame_txtime", "ext_address", "txpad_content", "rxpad_content", "rx_ext_address")),
+              (106, 2): ("CAN_ISOTP_RECV_FC", "<BBB", ("bs", "stmin", "wftmax")),
+              (106, 5): ("CAN_ISOTP_LL_OPTS", "<BBB", ("mtu", "tx_dl", "tx_flags")),
+              (101, 5): ("CAN_RAW_FD_FRAMES", None, ())}
+
+
+def describe_sock(text):
+    """`so=106:1:<hex>,... bind=rx:tx` with every block decoded per the kernel's struct layout"""
+    if not text.startswith("so="):
+        return text
+    so, _, b = text.partition(" bind=")
+    out = []
+    for it in so[3:].split(","):
+        if it == "-":
+            continue
+        try:
+            lv, op, v = it.split(":")
+            name, fmt, fields = SOCK_NAMES.get((int(lv), int(op)), (f"{lv}:{op}", None, ()))
+            if fmt and not v.startswith(("i", "?")) and len(bytes.fromhex(v)) == struct.calcsize(fmt):
+                vals = struct.unpack(fmt, bytes.fromhex(v))
+                out.append(name + "{" + ", ".join(f"{f}={x:#x}" for f, x in zip(fields, vals)) + "}")
+            else:
+                out.append(f"{name}={v}")
+        except ValueError:
+            out.append(it)
+    if ":" in b:
+        rx_id, tx_id = b.split(":")
+        try:
+            b = f"rx_id={int(rx_id):#x} tx_id={int(tx_id):#x}"
+        except ValueError:
+            pass
+    return "[" + "; ".join(out) + "] bind " + b
+
+
+def check_sock(ctx, rx, H, sch, raw, model_sock, budget):
+    """the socket level settings the real connect() programmed (recorded by the last rx.connect) against the oracle's"""
+    rs = rx.last_sock
+    if rs == model_sock:
+        return True
+    budget["s" + sch] = budget.get("s" + sch, 0) + 1
+    if budget["s" + sch] <= 3:
+        raw2, rs2, ms2 = shrink_sock(ctx, rx, H, sch, raw)
+        ctx.disagree(f"sock-{sch}:" + H.case_key({"uri": raw2}),
+                     f"{sch} connect({raw2!r}) programs the socket with {describe_sock(rs2)}; the URI says {describe_sock(ms2)}",
+                     {"fn": "sock", "scheme": sch, "input": raw2}, impl=rs2, model=ms2, spec_violated=True, site=f"{sch} connect/setsockopt")
+    return False
+
+
+def shrink_sock(ctx, rx, H, sch, raw):
+    """fixed order: drop query parameters one at a time while the socket level settings still differ"""
+    def ev(r):
+        m = ctx.lean([f"sock {H.hs(sch)} {H.hs(r)}"])[0]
+        rx.connect(sch, r)
+        return rx.last_sock, m
+
+    head, q, tail = raw.partition("?")
+    params = tail.split("&") if q else []
+    i = 0
+    while i < len(params):
+        cand = params[:i] + params[i + 1:]
+        r = head + ("?" + "&".join(cand) if cand else "")
+        a, b = ev(r)
+        if a != b and a != "noplan" and b != "noplan":
+            params = cand
+        else:
+            i += 1
+    r = head + ("?" + "&".join(params) if params else "")
+    a, b = ev(r)
+    return r, a, b
 
 
 def canon_plan(H, out):
@@ -489,8 +604,9 @@ def run_ext(ctx, real, B, H, nt, limited):
     model_parsed = ctx.lean([f"parse {m}" for m in model_uris])
     model_cfg = ctx.lean([f"cfg {hs(sch)} {mp.split()[3]}" if mp != "err" else "int -" for (sch, _, _), mp in zip(cfg_cases, model_parsed)])
     model_plan = ctx.lean([f"connect {hs(sch)} {m}" for (sch, _, _), m in zip(cfg_cases, model_uris)])
+    model_sock = ctx.lean([f"sock {hs(sch)} {m}" for (sch, _, _), m in zip(cfg_cases, model_uris)])
     budget = {}
-    for (sch, a, kind), mu, mc, mpl in zip(cfg_cases, model_uris, model_cfg, model_plan):
+    for (sch, a, kind), mu, mc, mpl, msk in zip(cfg_cases, model_uris, model_cfg, model_plan, model_sock):
         nt("config", repr((sch, a)))
         ctx.kind(f"config:{sch}", f"config:{kind}")
         ru = real.from_parts(sch, hosts.get(sch, "h") or "h", None, a)
@@ -516,6 +632,8 @@ def run_ext(ctx, real, B, H, nt, limited):
             if budget["c" + sch] <= 4:
                 ctx.disagree(f"connect-{sch}:" + H.case_key({"uri": raw}), f"{sch} connect({raw!r}) goes on with {rp}; expected {mpl}",
                              {"fn": "connect", "scheme": sch, "input": raw}, impl=rp, model=mpl, spec_violated=True, site=f"{sch} connect")
+        else:
+            check_sock(ctx, rx, H, sch, raw, msk, budget)
         ctx.traces_validated += 1
     # connect(): scheme check, host, port, default port, path - raw URIs per class x scheme
     conn_cases = []
@@ -542,7 +660,8 @@ def run_ext(ctx, real, B, H, nt, limited):
         conn_cases.append((cls_s, f"{uri_s}://{netloc}{path}" + (f"?{q}" if q else "")))
     outs = ctx.lean([f"connect {hs(c)} {hs(r)}" for c, r in conn_cases])
     pouts = ctx.lean([f"parse {hs(r)}" for _, r in conn_cases])
-    for (cls_s, raw), o, po in zip(conn_cases, outs, pouts):
+    souts = ctx.lean([f"sock {hs(c)} {hs(r)}" for c, r in conn_cases])
+    for (cls_s, raw), o, po, so in zip(conn_cases, outs, pouts, souts):
         nt("connect", repr((cls_s, raw)))
         rpar = real.parse(raw)
         if rpar != H.canon_model_parse(po) and limited("TargetURI-parse-conn"):
@@ -559,9 +678,85 @@ def run_ext(ctx, real, B, H, nt, limited):
             if budget["r" + cls_s] <= 4:
                 ctx.disagree(f"connect-{cls_s}:" + H.case_key({"uri": raw}), f"{cls_s} connect({raw!r}) goes on with {rp}; expected {o}",
                              {"fn": "connect", "scheme": cls_s, "input": raw}, impl=rp, model=o, spec_violated=True, site=f"{cls_s} connect")
+        else:
+            check_sock(ctx, rx, H, cls_s, raw, so, budget)
         ctx.traces_validated += 1
+    sock_grid(ctx, real, rx, H, nt, budget)
     ctx.notes["transports_in_registry"] = table_schemes
     lap('D-transports')
+
+
+def sock_grid(ctx, real, rx, H, nt, budget):
+    """ISO-TP / can-raw socket level settings: every combination of absent / 0 / hex / decimal / octal / binary spellings of the four
+    optional ISO-TP settings (pairwise different numbers, so that a value landing in another field shows), with is_fd / is_extended /
+    frame_txtime / tx_dl / ids varied along; a few out-of-range numbers (refused by the range check of the option block)"""
+    rng = ctx.rng
+    hs = H.hs
+    if "isotp" not in rx.transports:
+        return
+    names = ("ext_address", "rx_ext_address", "tx_padding", "rx_padding")
+    cases = []
+    reps = ctx.pick(1, 4)
+    for rep in range(reps):
+        vals = rng.sample(range(1, 256), 4)
+        sp = [[None, "0", f"{v:#x}", str(v), f"{v:#o}", f"{v:#b}"] for v in vals]
+        for combo in itertools.product(*sp):
+            a = {}
+            if rng.random() < 0.8:
+                a["is_fd"] = rng.choice(["true", "false"])
+                a["is_extended"] = rng.choice(["true", "false"])
+            a["src_addr"] = rng.choice(["0x6f1", "1777", f"{rng.randrange(1 << 29):#x}", str(rng.randrange(0x800)), f"{rng.randrange(1 << 32):#x}"])
+            a["dst_addr"] = rng.choice(["0x6a0", "0x7ff", f"{rng.randrange(1 << 29):#x}", str(rng.randrange(0x800)), f"-{rng.randrange(0x800):#x}"])
+            for k, v in zip(names, combo):
+                if v is not None:
+                    a[k] = v
+            r = rng.random()
+            if r < 0.15:
+                a["frame_txtime"] = str(rng.choice([0, 1, 10, 255, 256, 65536, (1 << 32) - 1, rng.randrange(1 << 32)]))
+            if r > 0.85:
+                a["tx_dl"] = str(rng.choice([8, 12, 16, 20, 24, 32, 48, 64, 0, 255]))
+            kind = "in-range"
+            r = rng.random()
+            if r < 0.04:
+                a[rng.choice(names)] = rng.choice(["256", "0x100", "-1", "-0x80", "65535"])
+                kind = "out-of-range"
+            elif r < 0.06:
+                a[rng.choice(["frame_txtime", "tx_dl"])] = rng.choice(["-1", "256", "4294967296"])
+                kind = "out-of-range"
+            cases.append(("isotp", "vcan0", a, kind))
+    if "can-raw" in rx.transports:
+        for fd in [None] + BOOL_WORDS:
+            for ext in (None, "true", "false"):
+                a = {}
+                if fd is not None:
+                    a["is_fd"] = fd
+                if ext is not None:
+                    a["is_extended"] = ext
+                if rng.random() < 0.5:
+                    a["dst_id"] = f"{rng.randrange(0x800):#x}"
+                cases.append(("can-raw", "vcan0", a, "can-raw"))
+    raws = []
+    for sch, host, a, kind in cases:
+        ru = real.from_parts(sch, host, None, a)
+        raws.append(None if ru.startswith("exc:") else H.unhs(ru))
+    live = [(c, r) for c, r in zip(cases, raws) if r is not None]
+    plans = ctx.lean([f"connect {hs(c[0])} {hs(r)}" for c, r in live])
+    socks = ctx.lean([f"sock {hs(c[0])} {hs(r)}" for c, r in live])
+    for ((sch, host, a, kind), raw), mpl, msk in zip(live, plans, socks):
+        nt("sock", repr((sch, raw)))
+        ctx.kind(f"sock:{sch}", f"sock:{kind}", "sock:optional-settings-present-" + str(sum(1 for k in names if k in a)))
+        rp = rx.connect(sch, raw)
+        mpl = canon_plan(H, mpl)
+        if rp != mpl:
+            budget["g" + sch] = budget.get("g" + sch, 0) + 1
+            if budget["g" + sch] <= 3:
+                ctx.disagree(f"connect-{sch}:" + H.case_key({"uri": raw}), f"{sch} connect({raw!r}) goes on with {rp}; expected {mpl}",
+                             {"fn": "connect", "scheme": sch, "input": raw}, impl=rp, model=mpl, spec_violated=True, site=f"{sch} connect")
+            continue
+        check_sock(ctx, rx, H, sch, raw, msk, budget)
+        ctx.traces_validated += 1
+    ctx.exhaustive_parts.append(f"ISO-TP option block / LL options / bound ids and can-raw options decoded for every combination of absent / 0 / hex / "
+                                f"decimal / octal / binary spellings of ext_address, rx_ext_address, tx_padding, rx_padding ({len(live)} URIs)")
 
 
 def shrink_cfg(ctx, real, rx, H, sch, host, a):
@@ -610,6 +805,12 @@ def replay_ext(ctx, real, H, c):
         _a, i, m = shrink_cfg(ctx, real, rx, H, c["scheme"], "h", c["args"])
         print(f"now: {c['scheme']} config from {c['args']!r}: impl={i} oracle={m}")
         return i != m
+    if fn == "sock":
+        mo = ctx.lean([f"sock {hs(c['scheme'])} {hs(c['input'])}"])[0]
+        rx.connect(c["scheme"], c["input"])
+        impl = rx.last_sock
+        print(f"now: {c['scheme']} connect({c['input']!r}) programs {describe_sock(impl)}; the URI says {describe_sock(mo)}")
+        return impl != mo
     if fn == "connect":
         mo = canon_plan(H, ctx.lean([f"connect {hs(c['scheme'])} {hs(c['input'])}"])[0])
         impl = rx.connect(c["scheme"], c["input"])
